@@ -186,7 +186,11 @@ end
 
 /-! ## Decoding (`parseField`) -/
 
-/-- `readVarUint`: `count` big-endian bytes, then `check`. -/
+/-- `readVarUint`: `count` big-endian bytes, then `check`.
+For `count > 8` Go's accumulator `result << 8` wraps modulo 2^64 where this model keeps the full number (and `check` then
+refuses it because of its `v < 2^64` guard).  No tag yields such a width once the 1…8 test applies to every sized info
+(finding F14, `C09TagWidth.tag_width`); until then the difference is confined to `size:9,selector:…` shapes, where
+`Marshal` panics anyway. -/
 def readVar (i : Info) (bs : Bytes) : Except Err (Nat × Bytes) :=
   if !i.countSet then .error .structural
   else if bs.length < i.count then .error .truncated
